@@ -19,7 +19,7 @@ RUN = os.path.join(VERIF, '.run')
 FAILDIR = os.path.join(VERIF, 'failures')
 JOBS = int(os.environ.get('VERIF_JOBS', '16'))
 GUARD = 'LIBERASURECODE_VERIF'
-RECIPE_VERSION = '6'
+RECIPE_VERSION = '7'
 
 CC, CXX = 'clang', 'clang++'
 SAN = ['-fsanitize=address,undefined', '-fno-sanitize=shift-base', '-fno-sanitize-recover=undefined', '-fno-omit-frame-pointer']
@@ -164,9 +164,27 @@ def build_shims(tmp, cflags, ldflags):
             src = os.path.join(tmp, 'obj', 'shim_%s_%d.c' % (be, j))
             with open(src, 'w') as f:
                 f.write('/* generated */\n')
+                if be == 'rs':
+                    # the functions an init error exit may legitimately call are forwarded to the REAL plugin (reference
+                    # taken and released around the call), so that what such an exit does to process-wide state is real
+                    f.write('#include <dlfcn.h>\n#include <stddef.h>\n'
+                            'static void *real(const char *n, void **h) { *h = dlopen("liberasurecode_rs_vand.so.1", RTLD_NOW | RTLD_LOCAL); return *h ? dlsym(*h, n) : NULL; }\n')
                 for name in syms[:j]:
                     if name == 'make_systematic_matrix':
-                        f.write('int *make_systematic_matrix(int k, int m) { (void)k; (void)m; return 0; }\n')
+                        if j == len(syms):
+                            f.write('int *make_systematic_matrix(int k, int m) { (void)k; (void)m; return 0; }\n')
+                        else:
+                            f.write('int *make_systematic_matrix(int k, int m) { void *h; int *(*fn)(int, int) = (int *(*)(int, int))real("make_systematic_matrix", &h); int *r = fn ? fn(k, m) : 0; if (h) dlclose(h); return r; }\n')
+                    elif be == 'rs' and j == len(syms) and name in ('init_liberasurecode_rs_vand', 'deinit_liberasurecode_rs_vand'):
+                        # matrix-construction failure (an allocation failure in real life): table set-up and tear-down are
+                        # both stand-ins here, so the pair stays balanced whichever way the exit handles it
+                        f.write('void %s(void) { }\n' % name)
+                    elif be == 'rs' and name == 'init_liberasurecode_rs_vand':
+                        f.write('void init_liberasurecode_rs_vand(int k, int m) { void *h; void (*fn)(int, int) = (void (*)(int, int))real("init_liberasurecode_rs_vand", &h); if (fn) fn(k, m); if (h) dlclose(h); }\n')
+                    elif be == 'rs' and name == 'deinit_liberasurecode_rs_vand':
+                        f.write('void deinit_liberasurecode_rs_vand(void) { void *h; void (*fn)(void) = (void (*)(void))real("deinit_liberasurecode_rs_vand", &h); if (fn) fn(); if (h) dlclose(h); }\n')
+                    elif be == 'rs' and name == 'free_systematic_matrix':
+                        f.write('void free_systematic_matrix(int *m) { void *h; void (*fn)(int *) = (void (*)(int *))real("free_systematic_matrix", &h); if (fn) fn(m); if (h) dlclose(h); }\n')
                     else:
                         f.write('long %s(void) { return 0; }\n' % name)
             cmds.append(([CC, '-shared', '-fPIC', '-O1'] + [x for x in cflags if x.startswith('-fsanitize') or x.startswith('-fno-sanitize')] + ldflags +
